@@ -4,6 +4,7 @@ package main
 // One case = (params tokens ops); implementation output = per op (code state-projection).
 
 import (
+	"math"
 	"os"
 	"crypto/sha256"
 	"encoding/binary"
@@ -149,10 +150,32 @@ type HubRun struct {
 	voter    sdk.AccAddress
 }
 
+// hubSigners: the Minter signer set as the staking input defines it (bonded validators in staking order that have a
+// Minter key, power normalised to 2^32-1 with exact integer arithmetic). Computed here, not read from the keeper: it
+// is an INPUT of the model, and must not follow a defect of the code under test.
 func hubSigners(env *Env) V {
+	type sg struct {
+		addr string
+		p    uint64
+	}
+	var l []sg
+	total := new(big.Int)
+	for _, v := range env.Staking.Vals {
+		if !v.Bonded {
+			continue
+		}
+		ext := env.K.GetValidatorExternalAddress(env.Ctx, "minter", v.Oper)
+		if ext.Hex() == "0x0000000000000000000000000000000000000000" {
+			continue
+		}
+		l = append(l, sg{ext.Hex(), uint64(v.Power)})
+		total.Add(total, new(big.Int).SetUint64(uint64(v.Power)))
+	}
 	var items []V
-	for _, s := range env.K.CurrentSignerSet(env.Ctx, "minter") {
-		items = append(items, L(B(s.ExternalAddress), U(s.Power)))
+	for _, x := range l {
+		n := new(big.Int).Mul(new(big.Int).SetUint64(x.p), big.NewInt(math.MaxUint32))
+		n.Div(n, total)
+		items = append(items, L(B(x.addr), U(n.Uint64())))
 	}
 	return L(items...)
 }
@@ -175,6 +198,8 @@ func (op *HubOp) val(env *Env) V {
 		return L(I(8))
 	case 9:
 		return L(I(9))
+	case 11:
+		return L(I(11), B(op.Chain), B(op.Denom))
 	case 10:
 		return L(I(10))
 	default:
@@ -259,6 +284,15 @@ func (r *HubRun) exec(op *HubOp) (int64, string) {
 			return code, m
 		}
 		return outcome(func() error { mhub2.EndBlocker(env.Ctx, env.K); return nil })
+	case 11:
+		// a transaction whose first message requests a batch and whose second message fails: everything it did is dropped
+		msg := &types.MsgRequestBatchTx{Denom: op.Denom, Signer: op.Sender, ChainId: op.Chain}
+		return env.Tx(nil, func(ctx sdk.Context) error {
+			if _, err := env.Msg.RequestBatchTx(sdk.WrapSDKContext(ctx), msg); err != nil {
+				return err
+			}
+			return fmt.Errorf("a later message of the transaction failed")
+		})
 	case 9:
 		return env.Tx(nil, func(ctx sdk.Context) error {
 			env.K.SetTokenInfos(ctx, &types.TokenInfos{TokenInfos: op.Tokens})
